@@ -47,7 +47,7 @@ theorem calcLimits_linear (a b : Rat) (dt : DataType) :
   simp [calcLimits, h]
 
 theorem calcLimits_ratFunc_general (a b c d e f : Rat) (dt : DataType)
-    (hn : ¬(a = 0 ∧ d = 0 ∧ e = 0 ∧ f ≠ 0)) :
+    (hn : ¬(a = 0 ∧ d = 0 ∧ e = 0 ∧ f ≠ 0 ∧ b ≠ 0)) :
     calcLimits (.ratFunc (some (a, b, c, d, e, f))) dt = some (-maxF64, maxF64) := by
   rcases h : datatypeLimits dt with ⟨lo, hi⟩
   simp only [calcLimits, h]
@@ -61,7 +61,7 @@ theorem calcLimits_ratFunc_linear (b c f : Rat) (hb : b ≠ 0) (hf : f ≠ 0) (d
         some (f * ((datatypeLimits dt).1 / b) - c / b, f * ((datatypeLimits dt).2 / b) - c / b) := by
   rcases h : datatypeLimits dt with ⟨lo, hi⟩
   simp only [calcLimits, h]
-  rw [if_pos ⟨trivial, trivial, trivial, hf⟩, if_neg hb]
+  rw [if_pos ⟨trivial, trivial, trivial, hf, hb⟩]
 
 /-! ### the linear case over an abstract interval -/
 
